@@ -26,10 +26,7 @@ finally:
     sh("git", "-C", wt, "checkout", "--", ".")
 ok = res["demo_clean_exit"] == 0 and res.get("demo_changed_exit") == 1 and res.get("compiles") and not res["tests_unexpected_failures"]
 res["confirmed"] = bool(ok)
-# which checks catch it (run against /repo with the patch applied, then undone)
-r = sh("/usr/bin/python3", "/verif/tools/try_seed.py", patch)
-fired = [l.strip() for l in r.stdout.splitlines() if re.match(r"^\s+(dulwich|crates)/", l)]
-res["checks_fired"] = [re.sub(r"\s+", " ", f)[:200] for f in fired]
+res["checks_fired"] = []
 dst = f"/verif/seeded/{pid}-{n}"
 if ok:
     os.makedirs(dst, exist_ok=True)
@@ -40,5 +37,12 @@ if ok:
                              "pytest -n 10 tests (whole tests/ directory, change applied)": res["tests_summary"],
                              "unexpected test failures": res["tests_unexpected_failures"]},
             "caught_by": res["checks_fired"], "caught": bool(res["checks_fired"])}
+    json.dump(meta, open(dst + "/meta.json", "w"), indent=1)
+    # which checks catch it: in a throw-away worktree of /repo's HEAD (never /repo itself); rewrites caught_by in meta.json
+    r = sh("/usr/bin/python3", "/verif/tools/sweep_seeds.py", f"{pid}-{n}")
+    res["checks_fired"] = json.load(open(dst + "/meta.json")).get("caught_by", [])
+    res["sweep"] = r.stdout.strip()[-300:]
+    meta = json.load(open(dst + "/meta.json"))
+    meta["caught_at_arrival"] = [x for x in meta.get("caught_by", [])]     # never rewritten by later sweeps
     json.dump(meta, open(dst + "/meta.json", "w"), indent=1)
 print(json.dumps(res, indent=1))
